@@ -131,6 +131,13 @@ pub fn make_base<G: Cv>(env: &Env<G>, prog: &Program, seed: u64) -> Result<BaseR
         return Err("prover and reference model disagree on the variables handed out (C16's business)".into());
     }
     let proof = pr.obj.clone().ok_or("no proof object")?;
+    // the verifier's run on the *unmodified* statement must agree with the reference model on the
+    // variables handed out (otherwise the divergence is C16's business, whatever the deviation);
+    // a divergence that appears only under a deviation is caused by that deviation and is judged
+    let vr0 = guarded(|| program::verify::<G>(prog, &env.pc, &env.bp, seed, Dev::None, &pr.commitments, &proof, program::LABEL))?;
+    if !vr0.ctx.problems.is_empty() {
+        return Err("verifier and reference model disagree on the variables handed out for the unmodified statement (C16's business)".into());
+    }
     let rc = &pr.ctx.refcs;
     let kterms: Vec<usize> = rc.k_terms.clone();
     Ok(BaseRun { prog: prog.clone(), comms: pr.commitments, proof, honest: rc.honest.clone(), gates: rc.gates(), kterms })
@@ -199,9 +206,6 @@ pub fn run_dev<G: Cv>(env: &Env<G>, b: &BaseRun<G>, d: &SDev, seed: u64) -> Out 
         // a panicking verifier did not accept anything (panics are C08's business)
         Err(_) => return Out::DontCare("verifier panicked (C08's business)", false),
     };
-    if !vr.ctx.problems.is_empty() {
-        return Out::DontCare("verifier and reference model disagree on the variables handed out (C16's business)", vr.result.is_ok());
-    }
     // a constraint change that the committed values (and the rest of the witness) still satisfy
     if matches!(d, SDev::KConst(..) | SDev::KCoef(..)) {
         let rc = &vr.ctx.refcs;
@@ -251,7 +255,7 @@ pub fn main(o: &Opts) -> i32 {
                 let b = match make_base::<G>(&env, p, o.seed) {
                     Ok(b) => b,
                     // no honest base proof: nothing to bind (completeness is C01's business)
-                    Err(_) => return vec![(p.name(), "base".to_string(), Out::DontCare("no honest base proof (C01's business)", false))],
+                    Err(_) => return vec![(p.name(), "base".to_string(), Out::DontCare("no usable honest base (C01/C16's business)", false))],
                 };
                 sdevs_t(p, b.comms.len(), &b.kterms, G::torsion8().is_some()).into_iter().map(|d| (p.name(), d.name(), run_dev::<G>(&env, &b, &d, o.seed))).collect()
             })
